@@ -92,7 +92,8 @@ def setup_tokens():
         rc, t = helper(["token", k["src"], "HS256", json.dumps({"n": i, "sub": "c20"})]); GOOD.append(t)
     for i in range(40):
         t = GOOD[i]
-        BAD.append([t[:-2] + ("AA" if not t.endswith("AA") else "BB"), t.replace(".", "", 1), "garbage%d" % i, t[: len(t) // 2], "e30.e30." + t.split(".")[2], t + "x"][i % 6])
+        BAD.append([t[:-2] + ("AA" if not t.endswith("AA") else "BB"), t.replace(".", "", 1), "garbage%d" % i, t[: len(t) // 2], "e30.e30." + t.split(".")[2], t + "x",
+                    t + "\r", t + "\rAAAA", t + "\t", t + " "][i % 10])   # a good token followed by a carriage return / tab / space (and more): not the token any more
 
 
 # ---------------------------------------------------------------- (1) exit status of jwt-verify
@@ -289,6 +290,10 @@ def genver_cases():
                                   "print_g": st.booleans(), "p_style_g": sty, "verbose_g": st.booleans(), "print_v": st.booleans(), "p_style_v": sty})
 convert_cases = st.fixed_dictionaries({"keys": st.lists(st.tuples(st.sampled_from(KEYTYPES), st.sampled_from(["priv", "pub"]), st.booleans(), st.integers(0, 2)), min_size=1, max_size=8), "o_style": sty, "d_style": sty, "quiet": st.booleans(), "flag_style": st.integers(0, 1)})
 
+def onebad_run(how, toks):
+    args = ["-q", "-k", KEYS["hs"]["jwk_priv_alg"]]
+    return tool("jwt-verify", args + toks) if how == "args" else tool("jwt-verify", args + ["-"], stdin=("\n".join(toks) + "\n").encode())
+
 FNS = {"verify": run_verify_case, "genver": run_genver_case, "convert": run_convert_case}
 
 def main():
@@ -304,6 +309,9 @@ def main():
                     rc, out, err, san = tool("jwt-verify", ["-q", "-k", KEYS["hs"]["jwk_priv_alg"], "-"], stdin=("\n".join([t] + tail) + "\n").encode())
                     if san or (rc == 0) != (not any(x in BAD for x in tail)): bad = 1
             return 3 if bad else 0
+        if kind == "onebad":
+            toks = [GOOD[1], GOOD[2]]; toks.insert(case["pos"], BAD[case["j"]]); rc, out, err, san = onebad_run(case["how"], toks)
+            return 3 if san or rc == 0 else 0
         if kind == "lastline":
             pre = [[], [GOOD[0]], [GOOD[1], BAD[0]]][{0: 0, 1: 1, 2: 2}[case["pre"]]]; lasttok = [GOOD[2] + "x", GOOD[3], GOOD[4][:-1]][case["last"]]; last_ok = case["last"] == 1
             rc, out, err, san = tool("jwt-verify", ["-q", "-k", KEYS["hs"]["jwk_priv_alg"], "-"], stdin=("\n".join(pre + [lasttok]) + case["nl"]).encode())
@@ -338,6 +346,14 @@ def main():
                     stats["evaluations"] += 1; cls("last-line-lists"); nontrivial(("lastline", nl, len(pre), last_ok, A.worker))
                     if san or (rc == 0) != want_zero:
                         stats["violations"].append({"signature": "C20:jwt-verify:exit-status:" + ("zero-although-tokens-failed" if rc == 0 else "nonzero-although-all-verified") + ":last-line-of-stdin", "what": f"stdin list of {len(toks)} tokens, final newline {'present' if nl else 'absent'}, last token {'valid' if last_ok else 'valid but for its last character'}: exit {rc}", "replay": {"kind": "lastline", "case": {"nl": nl, "pre": len(pre), "last": [GOOD[2] + "x", GOOD[3], GOOD[4][:-1]].index(lasttok)}}})
+    if A.worker in (14, 15) or (A.nworkers <= 14 and A.worker < 2):   # exactly ONE failing token, of every kind (a damaged signature, a cut token, a token followed by CR / tab / space ...), in a list that otherwise verifies
+        how = "stdin" if A.worker & 1 else "args"
+        for j in range(10):
+            for pos in (0, 1, 2):
+                toks = [GOOD[1], GOOD[2]]; toks.insert(pos, BAD[j]); rc, out, err, san = onebad_run(how, toks)
+                stats["evaluations"] += 1; cls("lists-with-one-failing-token-of-each-kind"); nontrivial(("onebad", j, pos, how))
+                if san or rc == 0:
+                    stats["violations"].append({"signature": "C20:jwt-verify:exit-status:zero-although-tokens-failed:one-failing-token-kind-%d" % j, "what": f"list of 3 tokens ({how}), token {pos} is not a valid token ({BAD[j][-12:]!r} at its end): exit {rc}", "replay": {"kind": "onebad", "case": {"j": j, "pos": pos, "how": how}}})
     for li in range(len(LONG_GOOD)):
         if li % A.nworkers != A.worker: continue
         for tail in ([], [BAD[0]], [GOOD[0], BAD[1]]):
